@@ -214,7 +214,9 @@ class SystemClock(Clock, metaclass=MetaSystemClock):
                     if now >= sched_secs:
                         break
                     # cls._sched_cond.wait(sched_point - now)
-                    cls._sched_cond.wait(sched_secs - now)
+                    # A longer sleep is cut, the loop waits again.
+                    cls._sched_cond.wait(min(
+                        sched_secs - now, threading.TIMEOUT_MAX))
                     if not cls._run_sched:
                         return
 
@@ -470,6 +472,8 @@ class AppClock(Clock, metaclass=MetaAppClock):
                 # A task scheduled after the tick above set the flag, the
                 # timeout is stale so tick again instead of waiting.
                 if not cls._tick_pending:
+                    if seconds is not None:
+                        seconds = min(seconds, threading.TIMEOUT_MAX)
                     cls._tick_cond.wait(seconds)  # if seconds is None waits for notify
                 cls._tick_pending = False
 
@@ -858,8 +862,9 @@ class TempoClock(Clock, metaclass=MetaTempoClock):
                     if elapsed_beats >= qpeek[0]:
                         break
                     sched_secs = self.beats2secs(qpeek[0])
-                    self._sched_cond.wait(
-                        sched_secs - _libsc3.main.elapsed_time())
+                    self._sched_cond.wait(min(
+                        sched_secs - _libsc3.main.elapsed_time(),
+                        threading.TIMEOUT_MAX))
                     if not self._run_sched:
                         return
 
